@@ -87,8 +87,10 @@ class NarwhalsMaterializer(FormulaMaterializer):
             # numpy representation other than float (NaN).
             values = values.cast(nw.Float64)
         if spec.output == "sparse":
+            # (`values` may be any sequence, e.g. a plain list from the context,
+            # possibly still wrapped in its `FactorValues` proxy)
             return spsparse.csc_matrix(
-                numpy.array(values).reshape((values.shape[0], 1))
+                numpy.array(getattr(values, "__wrapped__", values)).reshape((-1, 1))
             )
         return values
 
